@@ -24,6 +24,15 @@ Theorem C11_identity_on_other_variant : forall (H : list N -> list N),
   (forall a secret rv, is_hidden a = false -> m_reveal H a secret rv = Val (Ok a)).
 Proof. intros H. split; [apply hide_hidden | apply reveal_nonhidden]. Qed.
 
+(** a consequence worth stating on its own: hiding is injective on well-formed AVPs, whatever padding
+    each side drew (so the round trip cannot be satisfied by a reveal that guesses) *)
+Theorem C11_hide_injective : forall (H : list N -> list N), (forall x, len (H x) = 16) ->
+  forall a b secret rv lp ap lp' ap',
+  wf_avp a = true -> is_hidden a = false -> len ap = 16 ->
+  wf_avp b = true -> is_hidden b = false -> len ap' = 16 ->
+  m_hide H a secret rv lp ap = m_hide H b secret rv lp' ap' -> a = b.
+Proof. exact hide_injective. Qed.
+
 (** with MD5 *)
 Theorem C11_hide_reveal_md5 : forall a secret rv lp ap,
   wf_avp a = true -> is_hidden a = false -> len ap = 16 ->
@@ -43,6 +52,7 @@ Example C11_example :
 Proof. vm_compute. reflexivity. Qed.
 
 Print Assumptions C11_hide_reveal.
+Print Assumptions C11_hide_injective.
 Print Assumptions C11_wire.
 Print Assumptions C11_identity_on_other_variant.
 Print Assumptions C11_hide_reveal_md5.
